@@ -1283,6 +1283,13 @@ class Interp:
         if isinstance(fv, BoundMethod):
             return self.call(fv.func, [fv.self_obj] + list(args), kwargs, ctx, node)
         if isinstance(fv, Builtin):
+            ls = getattr(ctx, "lib_stubs", None)
+            if ls and fv.name in ls and not getattr(ctx, "_in_lib_stub", False):
+                ctx._in_lib_stub = True
+                try:
+                    return self.call(ls[fv.name], args, kwargs, ctx)
+                finally:
+                    ctx._in_lib_stub = False
             if fv.wants_ctx:
                 return fv.fn(self, ctx, *args, **kwargs)
             return fv.fn(*args, **kwargs)
